@@ -14,7 +14,7 @@ META = {
             "record.Encoder and record.Decoder; results are compared bitwise with the prediction.",
     "note": "The specification decides the logical case analysis only (which marker, which delta base, which record gets which "
             "histogram); varint/zig-zag/IEEE byte fidelity is established by the replay of concretised values, not by TLC. "
-            "Bounded to batches of <=3 items (<=4 thorough) over 3 refs x 2-3 timestamps x 3 start timestamps. Encoder/decoder "
+            "Bounded to batches of <=3 items over 3 refs x 2 (thorough 3) timestamps x 3 start timestamps. Encoder/decoder "
             "append contracts (non-empty destination) are exercised as a side dimension: decoder-side deviations are reported as "
             "model drift, the encoder-side buffer reset is KF-C14-1.",
     "technique": "TLA+ reference of the codec case analysis (Records.tla) enumerated and checked by TLC; every enumerated case "
@@ -26,8 +26,7 @@ META = {
 def run(ctx):
     import vlib
     q = ctx.quick
-    r = ctx.tlc("records", "Records", "MC_quick.cfg", workers=4, timeout=3000,
-                constants=None if q else {"MaxLen": 4, "Refs": "{1, 9}"})
+    r = ctx.tlc("records", "Records", "MC_quick.cfg" if q else "MC_big.cfg", workers=4, timeout=6000)
     ctx.account(r)
     cases = r.emitted
     ctx.log("Records: %d cases enumerated and checked by TLC" % len(cases))
@@ -44,7 +43,7 @@ def run(ctx):
     ctx.absorb(gr, label="C14 replay")
     ctx.assumptions += [
         "byte-level fidelity (varint, zig-zag, float bits) is established by replaying concretised values only",
-        "batches of <=3 (thorough <=4) items over small symbolic alphabets; concretisation maps listed in the harness",
+        "batches of <=3 items over small symbolic alphabets; concretisation maps listed in the harness",
     ]
     return ctx.finish(rule="every batch over the symbolic alphabets, for every record type, each replayed with >=3 concretisations "
                            "(12 thorough), plus a non-empty encoder buffer and a non-empty decoder destination", exhaustive=True)
